@@ -469,10 +469,16 @@ func main() {
 	par := flag.Int("par", 16, "worker processes")
 	corpusDir := flag.String("corpus", "../corpus/C02", "regression corpus directory")
 	one := flag.Uint64("seed", 0, "print the text document of this job seed")
+	asJSON := flag.Bool("json", false, "with -seed: print the document as JSON (corpus format)")
 	flag.Parse()
 	if *one != 0 {
 		d := pagedoc.GenerateText(vlib.NewRng(*one))
-		fmt.Println(d.HTML())
+		if *asJSON {
+			b, _ := json.Marshal(d)
+			fmt.Println(string(b))
+		} else {
+			fmt.Println(d.HTML())
+		}
 		return
 	}
 	rng := vlib.NewRng(vlib.Seed() + 7)
